@@ -92,9 +92,10 @@ func TestVerif(t *testing.T) {
 			add(rh.RunFixed(t, "fixed:"+n, "all", rh.Pools{}, w[n], mon, 1))
 		}
 		n := c.N(24, 600)
+		sm := rh.NewStrMaterial(c.Rand.Fork())
 		for i := 0; i < n; i++ {
 			prof := []string{"all", "all", "cidr", "keyed"}[c.Rand.Intn(4)]
-			g := rh.NewGen(c.Rand.Fork(), prof)
+			g := rh.NewGen(c.Rand.Fork(), prof, sm)
 			nm := c.Rand.Pick(30, 80, 80, 150)
 			if c.Thorough() && c.Rand.Chance(1, 10) {
 				nm = 800
